@@ -310,6 +310,17 @@ class SymmetryTranslator:
                 continue
             used_inequalities = []
             fine = True
+            # exchanging the literals exchanges their arguments position by position: a variable at two different
+            # positions (p(X,Y), p(Y,Z)) would have to be exchanged with two different partners
+            seen_at: dict[AST, int] = {}
+            for pos, sides in enumerate(zip(*[x.atom.symbol.arguments for x in equality])):
+                if len(set(sides)) == 1:
+                    continue
+                for var in set(chain.from_iterable(collect_ast(side, "Variable") for side in sides)):
+                    if seen_at.setdefault(var, pos) != pos:
+                        fine = False
+            if not fine:
+                continue
             for pos, sides in enumerate(zip(*[x.atom.symbol.arguments for x in equality])):
                 # (lhs, rhs) = sides
                 # 1. all sides are equal
